@@ -194,6 +194,13 @@ def programs(tier):
     yield {'k': 'prog', 'cpu': '6800', 'src': '\torg 0\n\tswi\n\torg $fffc\n\tnop\n\tinx\n\tnop\n\tnop\n', 'tag': 'run to $ffff', 'entries': [0xfffc], 'must_cover': [0xfffc, 0xfffd, 0xfffe, 0xffff, 0]}
     yield {'k': 'prog', 'cpu': '4004', 'src': '\torg 0\n\tbbl 0\n\torg 4092\n\tnop\n\tiac\n\tnop\n\tnop\n', 'tag': 'run to $fff', 'entries': [4092], 'must_cover': [4092, 4093, 4094, 4095, 0]}
     yield {'k': 'prog', 'cpu': '87C00', 'src': '\torg 0\n\tret\n\torg 0fffch\n\tnop\n\tnop\n\tnop\n\tnop\n', 'tag': 'run to $ffff', 'entries': [0xfffc], 'must_cover': [0xfffc, 0xfffd, 0xfffe, 0xffff, 0]}
+    # one address reached by a call AND by a jump or branch (a tail call): it has one name in the output
+    for a, b in (('bsr', 'jmp'), ('jsr', 'bra'), ('jmp', 'jsr'), ('bne', 'bsr'), ('jsr', 'jmp'), ('bsr', 'bsr')):
+        yield {'k': 'prog', 'cpu': '6800', 'src': '\torg $100\n\t%s twice\n\tnop\n\t%s twice\n\tnop\ntwice:\tinx\n\trts\n' % (a, b), 'tag': 'target of %s and %s' % (a, b)}
+    for a, b in (('call', 'jp'), ('jp', 'call'), ('call', 'jrs t,'), ('jr z,', 'call')):
+        yield {'k': 'prog', 'cpu': '87C00', 'src': '\torg 256\n\t%s twice\n\tnop\n\t%s twice\n\tnop\ntwice:\tinc a\n\tret\n' % (a if a.endswith(',') else a + ' ', b if b.endswith(',') else b + ' '), 'tag': 'target of %s and %s' % (a, b)}
+    for a, b in (('jms', 'jun'), ('jun', 'jms')):
+        yield {'k': 'prog', 'cpu': '4004', 'src': '\torg 256\n\t%s twice\n\tnop\n\t%s twice\n\tnop\ntwice:\tiac\n\tbbl 0\n' % (a, b), 'tag': 'target of %s and %s' % (a, b)}
     # data reached only as data, several entry points
     yield {'k': 'prog', 'cpu': '6800', 'src': '\torg $100\n\tldaa tab\n\tldx #tab\n\tjmp fin\ntab:\tfcb 1,2,3\nfin:\tswi\n', 'tag': 'data'}
     yield {'k': 'prog', 'cpu': '6800', 'src': '\torg $100\ne1:\tnop\n\trts\ne2:\tclra\n\trts\ne3:\tjsr e1\n\trts\n', 'tag': 'entries', 'entries': [0x100, 0x102, 0x104]}
